@@ -14,9 +14,6 @@ UNITS = [B.Unit(n, [("a", "fx"), ("b", "fx")], "bool", "return a %s b;" % op) fo
     B.Unit("lim_lowest", [], "i64", "return std::numeric_limits<fixed_t>::lowest().v;"),
     B.Unit("lim_nan", [], "i64", "return std::numeric_limits<fixed_t>::quiet_NaN().v;"),
     B.Unit("nan_result", [], "i64", "return quiet_NaN_result().v;"),
-    B.Unit("lim_min", [], "i64", "return std::numeric_limits<fixed_t>::min().v;"),
-    B.Unit("lim_eps", [], "i64", "return std::numeric_limits<fixed_t>::epsilon().v;"),
-    B.Unit("lim_one", [], "i64", "return std::numeric_limits<fixed_t>::one().v;"),
 ]
 
 
@@ -52,7 +49,6 @@ def run(R):
     R.verify("abs/nan-stays-nan", [a], [c], isnan_raw(a), c.out == val(NAN))
     c2 = R.call(h, "absneg", [a])
     R.verify("absneg/equals-abs", [a], [c, c2], F, c.out == c2.out)
-    for n, v in (("lim_max", M), ("lim_lowest", -M), ("lim_nan", NAN), ("nan_result", NAN), ("lim_min", 1),
-                 ("lim_eps", 1), ("lim_one", 65536)):
+    for n, v in (("lim_max", M), ("lim_lowest", -M), ("lim_nan", NAN), ("nan_result", NAN)):
         c = R.call(h, n, [])
         R.verify("%s/value" % n, [], [c], T, c.out == val(v), note="numeric_limits constant == %d" % v)
